@@ -351,7 +351,10 @@ func genPCfgOpt(t *rapid.T, kind string, maxBuf int, eqShrink bool) PCfg {
 		if mm == 0 {
 			mm = 3
 		}
-		switch weighted(t, "maxKind", 3, 2, 2, 2) {
+		switch weighted(t, "maxKind", 3, 2, 2, 2, 1) {
+		case 4:
+			// "no limit": anything Verify accepts, also beyond 32 bits
+			c.MaxMatchLen = rapid.SampledFrom([]int{1 << 16, 1<<31 - 1, 1 << 31, 1<<32 - 1, 1 << 32, 1<<32 + 5, 1 << 40, 1<<63 - 1}).Draw(t, "maxMatchLenHuge")
 		case 0:
 			c.MaxMatchLen = mm + rapid.IntRange(0, 20).Draw(t, "maxMatchLen")
 		case 1:
